@@ -14,7 +14,9 @@
 (*     independent JSON decoder plus the blob files (PRawIdx): valid OCI   *)
 (*     index, at most one entry per tag                                    *)
 (*   - the outcome of each operation: an error where the model succeeds    *)
-(*     ("refused") is accepted only for a delete whose target is absent.   *)
+(*     ("refused") is accepted only for a delete whose target is absent,   *)
+(*     or on a back end that offers no way to delete (CanDo) - and then    *)
+(*     the map must be unchanged.                                          *)
 (* Mirrors: the API of regclient.RegClient (TagDelete, TagList,            *)
 (* ManifestPut/Head/Get/Delete, tag.go / manifest.go) as a black box.      *)
 (*                                                                         *)
@@ -71,7 +73,7 @@ VARIABLES tags,   \* the reference map
           amb,    \* tag -> set of digests: foreign duplicate entries not yet written by the client
           pend,   \* conc mode: operation id -> record of a called, not yet returned operation
           refs,   \* the manifests the referrers fall-back tag of the pool's subject lists (see below)
-          cf,     \* header: [mode, backend, alist, adel, fallback, withman, subj]
+          cf,     \* header: [mode, backend, alist, adel, fallback, withman, subj, mdelok]
           bad     \* seq mode: first violated obligation
 pvars == <<tags, mans, amb, pend, refs, cf, bad>>
 
@@ -90,19 +92,19 @@ Listed == MListed(tags)
 
 PInit == /\ tags = [t \in Tags |-> NONE] /\ mans = {} /\ amb = [t \in Tags |-> {}]
          /\ pend = <<>> /\ refs = {}
-         /\ cf = [mode |-> "seq", backend |-> "reg", alist |-> 1, adel |-> 1, fallback |-> 0, withman |-> 0, subj |-> {}]
+         /\ cf = [mode |-> "seq", backend |-> "reg", alist |-> 1, adel |-> 1, fallback |-> 0, withman |-> 0, subj |-> {}, mdelok |-> 1]
          /\ bad = ""
 
 \* header: the abstraction of the initial content (computed by the driver from what it put
 \* there itself: nothing for a fresh back end, the entries of a foreign index)
-PReset(mode, backend, alist, adel, tags0, amb0, mans0, fallback, withman, subj) ==
+PReset(mode, backend, alist, adel, tags0, amb0, mans0, fallback, withman, subj, mdelok) ==
   /\ tags' = [t \in Tags |-> tags0[t]]
   /\ mans' = ToSet(mans0)
   /\ amb' = [t \in Tags |-> ToSet(amb0[t])]
   /\ pend' = <<>>
   /\ refs' = {}
   /\ cf' = [mode |-> mode, backend |-> backend, alist |-> alist, adel |-> adel, fallback |-> fallback,
-            withman |-> withman, subj |-> ToSet(subj)]
+            withman |-> withman, subj |-> ToSet(subj), mdelok |-> mdelok]
   /\ bad' = ""
 
 ----------------------------------------------------------------------------
@@ -149,6 +151,13 @@ RawIdxBad(valid, ent, files) ==
   ELSE IF ToSet(files) # mans THEN "files"
   ELSE ""
 
+\* Does the back end offer a way to do what a delete asks for?  A manifest can be deleted where DELETE by
+\* digest is served (mdelok); a tag where DELETE by tag is served (adel) or, through the placeholder, where
+\* DELETE by digest is.  Where there is none, an error is all the client can give - but the map must then be
+\* what it was (the next projection is compared with the unchanged map as after any refused operation).
+CanDo(k) == IF k = "tagdel" THEN cf.adel = 1 \/ cf.mdelok = 1
+            ELSE IF k \in {"mdel", "mdelr"} THEN cf.mdelok = 1 ELSE TRUE
+
 \* the referrers list after operation k on manifest m took effect (done: it succeeded; pres: the map had
 \* the manifest)
 NewRefs(k, m, done, pres) ==
@@ -182,7 +191,7 @@ POp(k, t, m, res, lst) ==
           /\ mans' = IF done THEN MMans(mans, k, m) ELSE mans
           /\ amb' = IF done /\ k \in {"push", "tagdel"} THEN [amb EXCEPT ![t] = {}] ELSE amb
           /\ refs' = NewRefs(k, m, done, pres)
-          /\ bad' = Flag(~done /\ pres /\ ~unsure, "refused-" \o k)
+          /\ bad' = Flag(~done /\ pres /\ ~unsure /\ CanDo(k), "refused-" \o k)
      ELSE /\ UNCHANGED <<tags, mans, amb, refs>>
           /\ bad' = IF k = "list" THEN Latch(<<ListBad(lst)>>)
                     ELSE LET ref == IF t # "" THEN t ELSE m
